@@ -2070,10 +2070,25 @@ class _GroupElem(ABC):
         # connectivity matrix containing the nodes used by the elements
         connect_e_n = np.full(Ne, None, dtype=object)
 
-        # Calculate the number of times a coordinate appears
-        dims = np.max(coordinates_n, 0) - np.min(coordinates_n, 0) + 1
-        # here dims is a 3d array used in __Get_coordoNear to check if coordinates_n comes from an image/grid
-        # If the coordinates come from an image/grid, the _Get_coordoNear function will be faster.
+        # Check whether coordinates_n comes from an image/grid: the integer pixels of a full (nX, nY) grid, x running fastest.
+        # If the coordinates come from an image/grid, the _Get_coord_Near function will be faster.
+        origin = np.min(coordinates_n, 0)
+        dims = np.max(coordinates_n, 0) - origin + 1
+        nX, nY, nZ = dims
+        Ncoordinates = coordinates_n.shape[0]
+        coordinatesInImage = bool(
+            np.issubdtype(coordinates_n.dtype, np.integer)
+            and nZ == 1
+            and nX * nY == Ncoordinates
+            and np.array_equal(
+                coordinates_n[:, 0], origin[0] + np.arange(Ncoordinates) % nX
+            )
+            and np.array_equal(
+                coordinates_n[:, 1], origin[1] + np.arange(Ncoordinates) // nX
+            )
+        )
+        if not coordinatesInImage:
+            origin = None  # type: ignore [assignment]
 
         if needCoordinates:
             # Here we want to know the coordinates of the nodes in
@@ -2110,7 +2125,7 @@ class _GroupElem(ABC):
             coordElem = coord[connect[e]]
 
             # Retrieve indexes in coordinates_n that are within the element's bounds
-            idxNearElem = self._Get_coord_Near(coordinates_n, coordElem, dims)
+            idxNearElem = self._Get_coord_Near(coordinates_n, coordElem, dims, origin)
 
             # Return the index of idxNearElem that satisfies all the specified conditions.
             idxInElem = self.Get_pointsInElem(coordinates_n[idxNearElem], e)
@@ -2189,6 +2204,7 @@ class _GroupElem(ABC):
         coordinates_n: _types.FloatArray,
         coordElem: _types.FloatArray,
         dims: _types.FloatArray,
+        origin: Optional[_types.AnyArray] = None,
     ) -> _types.IntArray:
         """Get indexes in coordinates_n that are within the coordElem's bounds.
 
@@ -2200,6 +2216,9 @@ class _GroupElem(ABC):
             element's bounds
         dims : _types.FloatArray
             (nX, nY, nZ) = np.max(coordinates_n, 0) - np.min(coordinates_n, 0) + 1
+        origin : Optional[_types.AnyArray], optional
+            np.min(coordinates_n, 0) when coordinates_n are the integer pixels of a full (nX, nY) grid/image with x running fastest
+            (pixel (x, y) is coordinates_n[(y - y0) * nX + (x - x0)]), by default None (any other set of coordinates)
 
         Returns
         -------
@@ -2207,30 +2226,25 @@ class _GroupElem(ABC):
             indexes in element's bounds.
         """
 
-        nX, nY, nZ = dims
+        if origin is not None:
+            # here coordinates_n are the pixels of a (nX, nY) image whose first pixel is (x0, y0)
+            nX, nY = int(dims[0]), int(dims[1])
+            x0, y0 = int(origin[0]), int(origin[1])
 
-        # If all the coordinates appear the same number of times and the coordinates are of type int, we are on a grid/image.
-        testShape = nX * nY - coordinates_n.shape[0] == 0
-        coordinatesInImage = coordinates_n.dtype == int and testShape and nZ == 1
-
-        if coordinatesInImage:
-            # here coordinates_n are pixels
-
+            # pixels of the image within the element's bounds (the element may stick out of the image)
             xe = np.arange(
-                np.floor(coordElem[:, 0].min()),
-                np.ceil(coordElem[:, 0].max()),
+                max(np.floor(coordElem[:, 0].min()), x0),
+                min(np.ceil(coordElem[:, 0].max()), x0 + nX - 1) + 1,
                 dtype=int,
             )
             ye = np.arange(
-                np.floor(coordElem[:, 1].min()),
-                np.ceil(coordElem[:, 1].max()),
+                max(np.floor(coordElem[:, 1].min()), y0),
+                min(np.ceil(coordElem[:, 1].max()), y0 + nY - 1) + 1,
                 dtype=int,
             )
             Xe, Ye = np.meshgrid(xe, ye)
 
-            grid_elements_coordinates = np.concatenate(([Ye.ravel()], [Xe.ravel()]))
-            idx = np.ravel_multi_index(grid_elements_coordinates, (nY, nX))  # type: ignore
-            # if something goes wrong, check that the mesh is correctly positioned in the image
+            idx = (Ye.ravel() - y0) * nX + (Xe.ravel() - x0)
 
         else:
             xn, yn, zn = coordinates_n.T
